@@ -18,6 +18,11 @@ pub mod lib_std {
     pub use ::std::*;
     pub use shuttle::thread_local;
 
+    /// `spin_loop()` gives the CPU to the thread a busy-wait loop is waiting for
+    pub mod hint {
+        pub use shuttle::hint::*;
+    }
+
     pub mod thread {
         pub use ::std::thread::*;
         pub use shuttle::thread::{
@@ -47,6 +52,9 @@ pub mod lib_std {
 #[allow(unused_imports)]
 pub mod lib_core {
     pub use ::core::*;
+    pub mod hint {
+        pub use shuttle::hint::*;
+    }
     pub mod sync {
         pub use ::core::sync::*;
         pub mod atomic {
